@@ -55,6 +55,31 @@ fn gen_case(rng: &mut Rng) -> Case {
     Case { ctors, cmds, nroots }
 }
 
+/// Directed family: saturating costs make the rank guard reject the only live best edge of a class (its child is
+/// lowered in a later pass while its own saturated cost does not move), so the grounded-repair pass has to choose an
+/// edge for it — and the same class holds a SUBSUMED row whose saturated cost ties.  The repair must not pick it.
+fn gen_saturating_subsumed(rng: &mut Rng) -> Case {
+    let big = [(1u64 << 63) - 1, (1 << 63) - 1, (1 << 63) - 2, 1 << 62][rng.below(4)];
+    let k = |rng: &mut Rng| if rng.chance(3, 4) { big } else { (1u64 << 63) - 1 };
+    let mut ctors = vec![
+        Ctor { name: "T".into(), arity: 1, base: false, cost: k(rng), unextractable: false },
+        Ctor { name: "Q".into(), arity: 1, base: false, cost: k(rng), unextractable: false },
+        Ctor { name: "R".into(), arity: 1, base: false, cost: [1, 1, 2, 5][rng.below(4)], unextractable: false },
+        Ctor { name: "C0".into(), arity: 0, base: false, cost: k(rng), unextractable: false },
+        Ctor { name: "D0".into(), arity: 0, base: false, cost: k(rng), unextractable: false },
+        Ctor { name: "E0".into(), arity: 1, base: true, cost: k(rng), unextractable: false },
+    ];
+    // declaration order decides the scan order of the tables
+    for i in (1..ctors.len()).rev() { if rng.chance(1, 2) { ctors.swap(i, rng.below(i + 1)); } }
+    let depth = rng.below(3);
+    let mut x = "(Q $b)".to_string(); for _ in 0..depth { x = format!("(Q {x})"); }
+    let mut cmds = vec!["(let $b (Q (C0)))".to_string(), format!("(let $r0 {x})"), "(union $b (R (D0)))".to_string()];
+    let dead = if rng.chance(1, 2) { "(T (E0 0))" } else { "(T (D0))" };
+    cmds.push(format!("(let $t {dead})")); cmds.push("(union $r0 $t)".into()); cmds.push(format!("(subsume {dead})"));
+    if rng.chance(1, 3) { cmds.push("(let $u (T (C0)))".into()); cmds.push("(union $b $u)".into()); cmds.push("(subsume (T (C0)))".into()); }
+    Case { ctors, cmds, nroots: 1 }
+}
+
 fn header(c: &Case) -> String {
     let mut s = String::from("(sort E)\n");
     for k in &c.ctors {
@@ -157,6 +182,13 @@ pub fn run(ctx: &Ctx) -> Report {
             Ctor { name: "Leaf".into(), arity: 0, base: false, cost: 1, unextractable: false }, Ctor { name: "Mid".into(), arity: 1, base: false, cost: 100, unextractable: false },
             Ctor { name: "Big".into(), arity: 1, base: false, cost: 9223372036854775807, unextractable: false }, Ctor { name: "Cheap".into(), arity: 1, base: false, cost: 1, unextractable: false }],
         cmds: vec!["(let $c (Mid (Leaf)))".into(), "(let $r0 (Big (Big (Big $c))))".into(), "(union $c (Cheap (Leaf)))".into()], nroots: 1 }];
+    // corpus: the repair pass of the saturating-cost fix must skip subsumed rows
+    cases.push(Case { ctors: vec![
+            Ctor { name: "T".into(), arity: 1, base: false, cost: 9223372036854775807, unextractable: false }, Ctor { name: "Q".into(), arity: 1, base: false, cost: 9223372036854775807, unextractable: false },
+            Ctor { name: "R".into(), arity: 1, base: false, cost: 1, unextractable: false }, Ctor { name: "C0".into(), arity: 0, base: false, cost: 9223372036854775807, unextractable: false },
+            Ctor { name: "D0".into(), arity: 0, base: false, cost: 9223372036854775807, unextractable: false }, Ctor { name: "E0".into(), arity: 1, base: true, cost: 9223372036854775807, unextractable: false }],
+        cmds: vec!["(let $b (Q (C0)))".into(), "(let $r0 (Q $b))".into(), "(union $b (R (D0)))".into(), "(let $t (T (E0 0)))".into(), "(union $r0 $t)".into(), "(subsume (T (E0 0)))".into()], nroots: 1 });
+    for _ in 0..ctx.n(40, 400) { cases.push(gen_saturating_subsumed(&mut rng)); }
     for _ in 0..n { cases.push(gen_case(&mut rng)); }
     // run the engine, read dumps, build model inputs
     let mut lines = vec![]; let mut metas = vec![];
